@@ -428,7 +428,7 @@ mk('C18', ['Repr','ActVal','ActValProofs','Ops','RevConv','RevBridge4','RevolveR
    lifted('C18_eq_iff_repr','ActValProofs','eq_iff_repr','== holds iff the reprs are equal'),
    lifted('C18_steps_enumerated','ActValProofs','steps_enumerated','Forward / Reverse covering n0 .. n1-1 (n0 <= n1): iteration yields a duplicate-free list of exactly the steps k with n0 <= k < n1, ascending for Forward and descending for Reverse, len is its length n1 - n0, and `k in a` holds exactly for its members'),
    lifted('C18_no_steps_elsewhere','ActValProofs','no_steps','Copy, Move, EndForward, EndReverse define none of len / iteration / membership (TypeError)')])
-mk('C19', ['PeriodProofs','PeriodShape','SeqGenSpec'], [lifted('C19_periodic_sequence_is_source', 'SeqGenSpec', 'periodic_top_is_source', SEQ_SRC),lifted('C19_periodic_shape','PeriodShape','periodic_shape','the whole operation sequence, every l = max_n - 1 >= 0 and cm >= 1: sweep ++ revolve(last segment) ++ (Read_disk + revolve(one period)) per disk checkpoint, last first; k disk checkpoints, written exactly while more than mx steps remain; the pieces come from the memory-only generator `revolve` on the opt_0 table (the generator of class Revolve: C07) and contain no disk operation; hence disk writes only in the sweep at 0, mx, ..., (k-1) mx, none afterwards, and each disk checkpoint is read exactly once'), lifted('C19_periodic_sweep_writes','PeriodProofs','periodic_sweep_writes','disk writes of the forward sweep are exactly at 0, m, 2m, ... while more than m steps remain'),
+mk('C19', ['PeriodProofs','PeriodShape','SeqGenSpec','MxrrGenSpec'], [lifted('C19_period_is_source','MxrrGenSpec','mxrr_shape_is_model','THE PERIOD FORMULA IS THE SOURCE: MxrrGenSpec.mxrr_shape is the Gallina function harness/translate.py renders from mxrr_close_formula (periodic_disk_revolve.py) and beta (basic_functions.py): t = 0; while beta(cm + 1, t) <= (wd + rd) / uf: t += 1; return int(beta(cm, t)) -- with the floating-point test a <= b / uf read as the exact a * uf <= b (uf > 0) and the factorial quotient as the binomial coefficient BinomDef.beta (the trusted reading, DESIGN 10); Gen/MxrrGen.v re-translates the current source on every run and proves the result equal to that term by conversion.  For every cm >= 0 and all costs it is RevSeq.mxrr, the period of C19_period_closed_form and of every PeriodicDiskRevolve theorem'),lifted('C19_periodic_sequence_is_source', 'SeqGenSpec', 'periodic_top_is_source', SEQ_SRC),lifted('C19_periodic_shape','PeriodShape','periodic_shape','the whole operation sequence, every l = max_n - 1 >= 0 and cm >= 1: sweep ++ revolve(last segment) ++ (Read_disk + revolve(one period)) per disk checkpoint, last first; k disk checkpoints, written exactly while more than mx steps remain; the pieces come from the memory-only generator `revolve` on the opt_0 table (the generator of class Revolve: C07) and contain no disk operation; hence disk writes only in the sweep at 0, mx, ..., (k-1) mx, none afterwards, and each disk checkpoint is read exactly once'), lifted('C19_periodic_sweep_writes','PeriodProofs','periodic_sweep_writes','disk writes of the forward sweep are exactly at 0, m, 2m, ... while more than m steps remain'),
    lifted('C19_period_closed_form','PeriodProofs','periodic_period_closed_form','the period is beta(cm, tm) with tm the least t such that beta(cm+1, t) uf > wd + rd; independent of N')])
 
 for pid, body in files.items():
